@@ -163,17 +163,20 @@ def specEdges (rs : R) : Obs → Bool
     denotes out [rs] [] (fun h => member rs h && (!member rs (h - 1) || !member rs (h + 1)))
   | _ => false
 
-/-- left-of: the greatest member below `h` -/
+/-- some height of `[lo, hi]` belongs to the range `r` -/
+def meets (r : Nat × Nat) (lo hi : Nat) : Bool := decide (max r.1 lo ≤ min r.2 hi)
+
+/-- left-of: the greatest member below `h` (`h ≥ 1`) -/
 def specLeftOf (rs : R) (h : Nat) (o : Option Nat) : Bool :=
   match o with
   | none => rs.all (fun r => decide (h ≤ r.1))
-  | some x => member rs x && decide (x < h) && rs.all (fun r => decide (r.2 ≤ x) || decide (h ≤ r.1))
+  | some x => member rs x && decide (x < h) && rs.all (fun r => !meets r (x + 1) (h - 1))
 
 /-- right-of: the least member above `h` -/
 def specRightOf (rs : R) (h : Nat) (o : Option Nat) : Bool :=
   match o with
   | none => rs.all (fun r => decide (r.2 ≤ h))
-  | some x => member rs x && decide (h < x) && rs.all (fun r => decide (x ≤ r.1) || decide (r.2 ≤ h))
+  | some x => member rs x && decide (h < x) && rs.all (fun r => !meets r (h + 1) (x - 1))
 
 /-- balanced partition: `left < middle < right`, together they are the set, sizes differ by ≤ 1 -/
 def specPartitions (rs : R) (o : Option (R × Nat × R)) : Bool :=
